@@ -1,3 +1,159 @@
-import GlueVerif.Model.C09Roi
+import GlueVerif.Lemmas.C09Dispatch
+/-!
+# C09 — a drawn region becomes a selection of exactly the points the region contains
+
+Property theorems only.  Every statement is about the executable definitions in
+`GlueVerif.Model.C09Roi` that `Drivers/C09.lean` runs against `roi_to_subset_state` +
+`Data.get_mask` on every check: `roiToState` (the dispatch, with the F9 repair), `mask`
+(`to_mask` of the state classes), `specSelected` ("the plotted position lies in the region") and
+`specOnBoundary` (the excluded boundary).  Labels are integers; the plotted position of a label is
+its index in the sorted unique category list; `none` is NaN.  All statements hold for every
+rational region parameter, every category list and every data value — nothing is bounded.
+-/
 namespace GlueVerif.C09
+open GlueVerif.ArrayUtil GlueVerif.C09.Lemmas
+
+/-! ## Range regions -/
+
+/-- `RangeROI` on a numeric axis (`RangeSubsetState`, inclusive bounds) selects exactly the values
+strictly inside the range, the two end points excepted; NaN is never selected; the other
+coordinate (any kind, also NaN) is irrelevant.  Both orientations. -/
+theorem range_numeric (lo hi : Rat) (q : Option Rat) (other : Val) (oc : Option (List Int)) :
+    (specOnBoundary (.range .x lo hi) none oc none ⟨.num q, other⟩ = false →
+      mask none (roiToState (.range .x lo hi) none oc false) ⟨.num q, other⟩ =
+        specSelected (.range .x lo hi) none oc none ⟨.num q, other⟩) ∧
+    (specOnBoundary (.range .y lo hi) oc none none ⟨other, .num q⟩ = false →
+      mask none (roiToState (.range .y lo hi) oc none false) ⟨other, .num q⟩ =
+        specSelected (.range .y lo hi) oc none none ⟨other, .num q⟩) := by
+  constructor <;> intro hb <;> cases q with
+  | none => simp [roiToState, rangeToState, mask, Elem.get, specSelected, specPoint, plotCoord]
+  | some v =>
+    simp only [specOnBoundary, specPoint, plotCoord, Option.map_some, onBoundary, Bool.or_eq_false_iff,
+      decide_eq_false_iff_not] at hb
+    simp only [roiToState, rangeToState, mask, Elem.get, specSelected, specPoint, plotCoord,
+      Option.map_some, roiContains, ge_iff_le]
+    exact closed_eq_open lo hi v hb.1 hb.2
+
+/-- The arithmetic of `CategoricalROI.from_range`: for **all** rational bounds and every category
+position `i`, `⌈lo⌉⁺ ≤ i < ⌈hi⌉⁺` (ceil of positive bounds, else 0 — the slice the code takes) holds
+exactly when `lo < i < hi`, unless `i = lo`. -/
+theorem from_range_positions (lo hi : Rat) (i : Nat) (h : ((i : Int) : Rat) ≠ lo) :
+    (clampCeil lo ≤ i ∧ i < clampCeil hi) ↔ (lo < ((i : Int) : Rat) ∧ ((i : Int) : Rat) < hi) := by
+  rw [clampCeil_le, lt_clampCeil]
+  constructor
+  · rintro ⟨a, b⟩; exact ⟨lt_of_le_of_ne a (Ne.symm h), b⟩
+  · rintro ⟨a, b⟩; exact ⟨le_of_lt a, b⟩
+
+/-- `RangeROI` on a categorical axis (`CategoricalROI.from_range` → slice of the category list →
+`np.unique` → `searchsorted` + equality): an element is selected exactly when its category position
+lies strictly inside the range, the position `lo` excepted — for every rational range, every sorted
+duplicate-free category list (any number of categories) and every label of it. -/
+theorem range_categorical (lo hi : Rat) (cs : List Int) (hs : strictSorted cs = true) (l : Int)
+    (hl : l ∈ cs) (other : Val) (oc : Option (List Int)) :
+    (specOnBoundary (.range .x lo hi) (some cs) oc none ⟨.lab l, other⟩ = false →
+      mask none (roiToState (.range .x lo hi) (some cs) oc false) ⟨.lab l, other⟩ =
+        specSelected (.range .x lo hi) (some cs) oc none ⟨.lab l, other⟩) ∧
+    (specOnBoundary (.range .y lo hi) oc (some cs) none ⟨other, .lab l⟩ = false →
+      mask none (roiToState (.range .y lo hi) oc (some cs) false) ⟨other, .lab l⟩ =
+        specSelected (.range .y lo hi) oc (some cs) none ⟨other, .lab l⟩) := by
+  constructor <;> intro hb
+  · simp only [specOnBoundary, specPoint, plotCoord, Option.map_some, onBoundary, Bool.or_eq_false_iff,
+      decide_eq_false_iff_not] at hb
+    simp only [roiToState, rangeToState, specSelected, specPoint, plotCoord, Option.map_some, roiContains]
+    rw [mask_catRange none cs hs lo hi .x _ l rfl hl]
+    exact halfopen_eq_open lo hi _ hb.1
+  · simp only [specOnBoundary, specPoint, plotCoord, Option.map_some, onBoundary, Bool.or_eq_false_iff,
+      decide_eq_false_iff_not] at hb
+    simp only [roiToState, rangeToState, specSelected, specPoint, plotCoord, Option.map_some, roiContains]
+    rw [mask_catRange none cs hs lo hi .y _ l rfl hl]
+    exact halfopen_eq_open lo hi _ hb.1
+
+example : strictSorted [2, 5, 7] = true ∧ (5 : Int) ∈ [2, 5, 7] ∧
+    fromRange [2, 5, 7] (1 / 2) (5 / 2) = [5, 7] ∧ fromRange [2, 5, 7] 1 (3 / 2) = [5] := by decide +kernel
+
+/-! ## Categorical regions -/
+
+/-- `CategoricalROI(labels)` (labels in any order, with duplicates) selects exactly the elements
+whose x label is listed — `np.unique`, `searchsorted`, the index clamp and the equality test
+together decide membership. -/
+theorem categorical_roi (labels : List Int) (xc yc : Option (List Int))
+    (hany : (xc.isSome || yc.isSome) = true) (usePre : Bool) (pre : Option Affine) (l : Int) (other : Val) :
+    mask pre (roiToState (.categorical labels) xc yc usePre) ⟨.lab l, other⟩ =
+      specSelected (.categorical labels) xc yc pre ⟨.lab l, other⟩ := by
+  simp only [roiToState, hany, if_true, mask, Elem.get, specSelected]
+  rw [catRoiContains_eq_mem _ (Lemmas.strictSorted_categories labels)]
+  rw [Bool.eq_iff_iff]
+  simp [Lemmas.mem_categories]
+
+/-! ## Rectangles on categorical axes -/
+
+/-- An unrotated rectangle (`θ ≡ 0 mod π`) with at least one categorical axis is decomposed into
+two ranges joined by `AndState`; off the rectangle's boundary the selection is exactly the open
+rectangle, for the three axis-kind combinations and NaN values.  (Rotated rectangles take the
+polygon-like branches after the F9 repair: `polygon_cat_cat`, `polygonised_cat_num`.) -/
+theorem rect_categorical (xmin xmax ymin ymax c : Rat) (hc : c * c = 1) (xc yc : Option (List Int))
+    (hcx : catsOk xc = true) (hcy : catsOk yc = true) (hany : (xc.isSome || yc.isSome) = true)
+    (usePre : Bool) (e : Elem) (hx : valOk xc e.x = true) (hy : valOk yc e.y = true)
+    (hb : specOnBoundary (.rect xmin xmax ymin ymax c 0) xc yc none e = false) :
+    mask none (roiToState (.rect xmin xmax ymin ymax c 0) xc yc usePre) e =
+      specSelected (.rect xmin xmax ymin ymax c 0) xc yc none e := by
+  obtain ⟨ex, ey⟩ := e
+  have hstate : roiToState (.rect xmin xmax ymin ymax c 0) xc yc usePre =
+      .and (rangeToState .x xmin xmax xc) (rangeToState .y ymin ymax yc) := by
+    simp [roiToState, hany]
+  rw [hstate]
+  cases xc with
+  | none =>
+    cases yc with
+    | none => simp at hany
+    | some ys =>
+      cases ex with
+      | lab _ => simp [valOk] at hx
+      | num qx =>
+        cases ey with
+        | num _ => simp [valOk] at hy
+        | lab ly =>
+          have hly := mem_of_contains (by simpa [valOk] using hy : ys.contains ly = true)
+          simp only [catsOk] at hcy
+          cases qx with
+          | none =>
+            simp [rangeToState, mask, Elem.get, specSelected, specPoint, plotPos, plotCoord]
+          | some vx =>
+            simp only [specOnBoundary, specPoint, plotPos, plotCoord, applyPre, Option.map_some] at hb
+            simp only [rangeToState, mask_and, specSelected, specPoint, plotPos, plotCoord, applyPre, Option.map_some]
+            rw [mask_numRange none xmin xmax .x _ (some vx) rfl, mask_catRange none ys hcy ymin ymax .y _ ly rfl hly]
+            exact rect0_core xmin xmax ymin ymax c hc vx (pos ly ys) (vx ≤ xmax) (pos ly ys < ymax)
+              le_of_lt id id le_of_lt hb
+  | some xs =>
+    cases ex with
+    | num _ => simp [valOk] at hx
+    | lab lx =>
+      have hlx := mem_of_contains (by simpa [valOk] using hx : xs.contains lx = true)
+      simp only [catsOk] at hcx
+      cases yc with
+      | none =>
+        cases ey with
+        | lab _ => simp [valOk] at hy
+        | num qy =>
+          cases qy with
+          | none =>
+            simp [rangeToState, mask, Elem.get, specSelected, specPoint, plotPos, plotCoord]
+          | some vy =>
+            simp only [specOnBoundary, specPoint, plotPos, plotCoord, applyPre, Option.map_some] at hb
+            simp only [rangeToState, mask_and, specSelected, specPoint, plotPos, plotCoord, applyPre, Option.map_some]
+            rw [mask_catRange none xs hcx xmin xmax .x _ lx rfl hlx, mask_numRange none ymin ymax .y _ (some vy) rfl]
+            exact rect0_core xmin xmax ymin ymax c hc (pos lx xs) vy (pos lx xs < xmax) (vy ≤ ymax)
+              id le_of_lt le_of_lt id hb
+      | some ys =>
+        cases ey with
+        | num _ => simp [valOk] at hy
+        | lab ly =>
+          have hly := mem_of_contains (by simpa [valOk] using hy : ys.contains ly = true)
+          simp only [catsOk] at hcy
+          simp only [specOnBoundary, specPoint, plotPos, plotCoord, applyPre, Option.map_some] at hb
+          simp only [rangeToState, mask_and, specSelected, specPoint, plotPos, plotCoord, applyPre, Option.map_some]
+          rw [mask_catRange none xs hcx xmin xmax .x _ lx rfl hlx, mask_catRange none ys hcy ymin ymax .y _ ly rfl hly]
+          exact rect0_core xmin xmax ymin ymax c hc (pos lx xs) (pos ly ys) (pos lx xs < xmax) (pos ly ys < ymax)
+            id le_of_lt id le_of_lt hb
+
 end GlueVerif.C09
